@@ -13,6 +13,7 @@ import QsmtpModel.Lemmas.QrQp
 import QsmtpModel.Lemmas.QrLegal
 import QsmtpModel.Lemmas.QrNoHang
 import QsmtpModel.Lemmas.QrNoFault
+import QsmtpModel.Lemmas.MimeNoFault
 
 set_option linter.unusedSimpArgs false
 
@@ -70,6 +71,28 @@ wrap_line() stay inside a line of at least 970 bytes), never writes outside the 
 buffer (a buffer that cannot take the next piece is flushed first) and never stalls, for any input. -/
 theorem wrap_header_no_fault (h : List Byte) (st0 : St) : ∃ st, wrapHeader h st0 = .ok st :=
   wrapHeader_ok h st0
+
+/-- is_multipart() with everything below it (skipwhitespace(), mime_token(), mime_param(), the
+boundary scan and its validation) never reads outside the `Content-Type:` field it is given,
+provided the field ends in CR or LF and is at least as long as its name — which is what
+getfieldlen() hands out (`getfieldlen_no_fault`).  The reads that are *not* guarded by a length test in
+the C code (`line[i]` behind a token or a closing quote, the byte behind `=`, `strncasecmp()` over
+`multipart/` near the end of the field, the unquoted boundary scan that tests its bound after the
+read, the `assert()` on the closing quote) are all stopped by that final CR or LF. -/
+theorem is_multipart_no_fault (field : List Byte)
+    (h : field = [] ∨ (EolAt field field.length ∧ Gen.mimeContentType.length ≤ field.length)) (f : Fault) :
+    isMultipart field ≠ .error (.fault f) :=
+  isMultipart_nf field h f
+
+/-- getfieldlen() on a range inside the view that begins with `k ≥ 1` bytes that are no line ends
+(a matched field name) never reads outside the range; a non-zero result covers those bytes and the
+field it delimits ends in CR or LF. -/
+theorem getfieldlen_no_fault (buf : List Byte) (start len k : Nat) (h : start + len ≤ buf.length)
+    (hk1 : 1 ≤ k) (hk : k ≤ len)
+    (hb : ∀ j, j < k → ∃ x, buf[start + j]? = some x ∧ x ≠ CR ∧ x ≠ LF) :
+    ∃ n, getFieldLen buf start len = .ok n ∧ n ≤ len ∧
+      (n ≠ 0 → k ≤ n ∧ (buf[start + n - 1]? = some CR ∨ buf[start + n - 1]? = some LF)) :=
+  getFieldLen_ok buf start len k h hk1 hk hb
 
 /-- need_recode() is sound: no `recode_long_*` flag ⇒ every line, the last unterminated one
 included, has at most 998 bytes; no `recode_8bit` flag ⇒ every byte is in 1..127. (All its reads
